@@ -477,3 +477,29 @@ macro_rules! consuming_vs_cloning {
 }
 consuming_vs_cloning!(c15_consuming_vs_cloning_2, 2, 5);
 consuming_vs_cloning!(c15_consuming_vs_cloning_3, 3, 6);
+
+/// C18: the constants the derivative rules create enter the value type through `From<f32>` (a Float) and
+/// `From<u8>` (an Int), for every f32 / u8, in the documented instantiation and in `<i64, f32>`
+#[kani::proof]
+#[kani::stub(alloc::fmt::format, crate::stubs::fmt_stub)]
+fn c18_val_from_consts() {
+    use exmex::Val;
+    let v: f32 = kani::any();
+    let u: u8 = kani::any();
+    let a: Val<i32, f64> = Val::from(v);
+    match &a {
+        Val::Float(x) => assert!(x.to_bits() == (v as f64).to_bits() || (x.is_nan() && v.is_nan()), "From<f32> must give the same number as a Float"),
+        _ => assert!(false, "From<f32> must give a Float"),
+    }
+    let b: Val<i32, f64> = Val::from(u);
+    assert!(matches!(&b, Val::Int(n) if *n == u as i32), "From<u8> must give the same number as an Int");
+    let c: Val<i64, f32> = Val::from(v);
+    match &c {
+        Val::Float(x) => assert!(x.to_bits() == v.to_bits() || (x.is_nan() && v.is_nan()), "From<f32> must give the same number as a Float"),
+        _ => assert!(false, "From<f32> must give a Float"),
+    }
+    let d: Val<i64, f32> = Val::from(u);
+    assert!(matches!(&d, Val::Int(n) if *n == u as i64), "From<u8> must give the same number as an Int");
+    kani::cover!(u == 2 && v == 2.0, "the constants of the power and sqrt rules reached");
+    core::mem::forget((a, b, c, d));
+}
